@@ -225,7 +225,7 @@ def readonly_state(task):
             except Exception as e:  # noqa: BLE001
                 out.append(vio("C16", "raises", f"{name}: {type(e).__name__}: {str(e)[:200]}", dict(case, op=name), "readonly", f"{name}:{type(e).__name__}"))
             after = canon.snapshot(tracks)
-            if after != before or id(tracks.segmentation) != seg_id:
+            if after != before:  # values, not object identity: the property speaks of the state
                 out.append(vio("C16", "state-changed", f"{name}: " + "; ".join(canon.diff(before, after)), dict(case, op=name), "readonly", name))
                 tracks = explore.rebuild(w, seed, history)
                 before = canon.snapshot(tracks)
